@@ -1,7 +1,6 @@
 """C23 — fabrication clean-up keeps exactly the connected material
 (RemoveFloatingMaterial / ConnectHolesAndStructures; binary_transform.py flood fills)."""
 import collections
-import hashlib
 import json
 
 from lib import core
@@ -11,7 +10,7 @@ PID = "C23"
 PROPS_FILE = "props/C23.v"
 IMPL = "C23_impl.py"
 COQ_HEADER = "From FV Require Import base.Util base.MorphBase model.Morph."
-SHARD = 12
+SHARD = 6
 RULE = ("binary designs on boxes 1..7 per axis (random densities; serpentines, spirals, serpentine air channels, thin boxes, "
         "one-layer designs); for each: compute_polymer_connection / compute_air_connection / remove_floating_polymer / "
         "connect_holes_and_structures and the two transform modules; model output == implementation output (exact), and the "
@@ -104,18 +103,22 @@ def gen_cases(ctx):
     if corpus.exists():
         cases += json.loads(corpus.read_text())
     # adversarial: long winding paths
-    for n in ctx.pick([3, 5, 7], [3, 4, 5, 7, 9]):
+    for n in ctx.pick([3, 5], [3, 4, 5, 7, 9]):
         s = serpentine(n)
-        cases += [case("remove", s), case("polymer", s), case("air", invert(s)), case("remove_module", s)]
-        cases += [case("air", air_channel(n)), case("connect", air_channel(n)), case("remove", spiral(n)), case("connect", s)]
+        cases += [case("remove", s), case("air", invert(s)), case("remove_module", s), case("connect", s), case("remove", spiral(n, 3))]
+        cases += [case("air", air_channel(n)), case("connect", air_channel(n))]
+        if not ctx.quick:
+            cases += [case("polymer", s), case("remove", spiral(n))]
+    if ctx.quick:
+        cases += [case("remove", serpentine(7))]
     # one-layer and thin boxes (crashed / lost everything before the fix)
-    for shape in ctx.pick([(4, 5, 1), (2, 4, 4), (1, 5, 4), (4, 4, 2)], [(4, 5, 1), (1, 1, 1), (2, 4, 4), (1, 5, 4), (4, 4, 2), (5, 2, 5), (6, 1, 1), (1, 1, 6)]):
+    for shape in ctx.pick([(4, 5, 1), (2, 4, 4)], [(4, 5, 1), (1, 1, 1), (2, 4, 4), (1, 5, 4), (4, 4, 2), (5, 2, 5), (6, 1, 1), (1, 1, 6)]):
         for _ in range(2):
             m = rand_design(rng, shape, rng.uniform(0.4, 0.8))
             cases += [case("remove", m), case("air", m), case("connect", m)]
         cases.append(case("remove_module", rand_design(rng, shape, 0.7)))
     # random designs, several per shape (the driver jit-compiles once per (kind, shape))
-    nshape, per = ctx.pick((5, 5), (14, 10))
+    nshape, per = ctx.pick((3, 4), (14, 10))
     for _ in range(nshape):
         shape = [rng.randint(2, ctx.pick(5, 7)) for _ in range(3)]
         for _ in range(per):
@@ -160,7 +163,13 @@ def coq_expr(case, out):
     return f"match {FN[case['kind']]} {s} {a3(case['m'])} with Some r => arr3_eqb r {a3(out['out'])} | None => false end"
 
 
+_SHOWN = [0]
+
+
 def show_model(case, out):
+    _SHOWN[0] += 1
+    if _SHOWN[0] > 2:
+        return "(omitted; see the first mismatching cases)"
     s = " ".join(natlit(v) for v in case["shape"])
     return core.coq_eval_text(PID, COQ_HEADER, f"{FN[case['kind']]} {s} {a3(case['m'])}")
 
@@ -197,15 +206,15 @@ def cells(shape):
     return [(i, j, k) for i in range(shape[0]) for j in range(shape[1]) for k in range(shape[2])]
 
 
-def key_of(case):
-    h = hashlib.sha1(json.dumps(case["m"]).encode()).hexdigest()[:8]
-    return f"{case['kind']}-{'x'.join(map(str, case['shape']))}-{h}"
+def key_of(case, what):
+    """coarse, stable key: operation + failure class (one VIOLATION line per class, first input of the class is the replay)"""
+    return f"{case['kind'].replace('_module', '')}-{what}"
 
 
 def predicate(case, out):
     shape, m, kind = case["shape"], case["m"], case["kind"]
     if "error" in out:
-        return (key_of(case), f"{kind} on a {shape} design fails: {out['error']}")
+        return (key_of(case, "error"), f"{kind} on a {shape} design fails: {out['error']}")
     o = out["out"]
     if kind in ("polymer", "remove", "remove_module"):
         conn = flood(m, bottom_seeds(shape))
@@ -213,7 +222,8 @@ def predicate(case, out):
             exp = 1 if (m[i][j][k] and (i, j, k) in conn) else 0
             if o[i][j][k] != exp:
                 what = "connected material deleted" if exp else "cell kept/marked although not connected material"
-                return (key_of(case), f"{kind}: cell {(i, j, k)} is {o[i][j][k]}, expected {exp} ({what}); "
+                cls = "one-layer-design-emptied" if (exp and shape[2] == 1) else ("connected-material-deleted" if exp else "unconnected-cell-kept")
+                return (key_of(case, cls), f"{kind}: cell {(i, j, k)} is {o[i][j][k]}, expected {exp} ({what}); "
                                       f"{sum(map(sum, map(lambda p: map(sum, p), m)))} material cells, {len(conn)} connected to the bottom layer")
         return None
     if kind == "air":
@@ -222,17 +232,17 @@ def predicate(case, out):
         for (i, j, k) in cells(shape):
             exp = 1 if (i, j, k) in conn else 0
             if o[i][j][k] != exp:
-                return (key_of(case), f"air connection: cell {(i, j, k)} is {o[i][j][k]}, expected {exp}")
+                return (key_of(case, "connected-background-missed" if exp else "unconnected-background-marked"), f"air connection: cell {(i, j, k)} is {o[i][j][k]}, expected {exp}")
         return None
     # connect / connect_module: no floating material, no enclosed background
     conn = flood(o, bottom_seeds(shape))
     fl = [c for c in cells(shape) if o[c[0]][c[1]][c[2]] and c not in conn]
     if fl:
-        return (key_of(case), f"{kind}: floating material remains at {fl[:4]}")
+        return (key_of(case, "floating-material-remains"), f"{kind}: floating material remains at {fl[:4]}")
     ac = flood(invert(o), side_seeds(shape))
     en = [c for c in cells(shape) if not o[c[0]][c[1]][c[2]] and c not in ac]
     if en:
-        return (key_of(case), f"{kind}: background enclosed away from the sides and the top at {en[:4]}")
+        return (key_of(case, "enclosed-background-remains"), f"{kind}: background enclosed away from the sides and the top at {en[:4]}")
     return None
 
 
